@@ -385,6 +385,16 @@ def commutative_conflicts(rng, tree, k=4):
     return out
 
 
+def perturb_extra_name_in_a_name_list(rng, frag):
+    """global/nonlocal statements hold a plain list of names: one more name, which the program never mentions"""
+    nodes = [n for n in ast.walk(frag) if isinstance(n, (ast.Global, ast.Nonlocal))]
+    if not nodes:
+        return None
+    n = rng.choice(nodes)
+    n.names = list(n.names) + ['zz_never_mentioned']
+    return 'extra-absent-name-in-a-global-or-nonlocal-list'
+
+
 def run_program(ctx, rng, src, origin, foreign_patterns):
     from pedal.core.commands import clear_report, contextualize_report
     try:
@@ -403,7 +413,7 @@ def run_program(ctx, rng, src, origin, foreign_patterns):
         if ms and '__' in d.pattern:
             sub_queries(ctx, rng, src, d.pattern, ms)
         # perturbations of the same fragment
-        for fn in rng.sample(['absent-identifier', 'absent-literal', 'literal-type', 'look-alike', 'swap', 'conflict', 'callee-and-argument', 'callee-under-operator', 'ellipsis'], 4):
+        for fn in rng.sample(['absent-identifier', 'absent-literal', 'literal-type', 'look-alike', 'swap', 'conflict', 'callee-and-argument', 'callee-under-operator', 'ellipsis', 'name-list'], 4):
             frag = cc.clone(d.fragment)
             if fn == 'absent-identifier':
                 kind = perturb_absent_identifier(rng, frag)
@@ -421,6 +431,8 @@ def run_program(ctx, rng, src, origin, foreign_patterns):
                 kind = perturb_other_callee_under_operator(rng, frag, idents)
             elif fn == 'ellipsis':
                 kind = perturb_ellipsis(rng, frag, consts)
+            elif fn == 'name-list':
+                kind = perturb_extra_name_in_a_name_list(rng, frag)
             else:
                 kind = perturb_conflicting_placeholder(rng, frag)
             if kind is None:
@@ -429,7 +441,7 @@ def run_program(ctx, rng, src, origin, foreign_patterns):
                 pattern = ast.unparse(ast.fix_missing_locations(frag))
             except Exception:
                 continue
-            must_be_empty = kind in ('absent-identifier', 'absent-literal', 'literal-of-other-type', 'literal-look-alike-of-other-kind', 'literal-replaced-by-ellipsis')
+            must_be_empty = kind in ('extra-absent-name-in-a-global-or-nonlocal-list', 'absent-identifier', 'absent-literal', 'literal-of-other-type', 'literal-look-alike-of-other-kind', 'literal-replaced-by-ellipsis')
             ctx.seen('perturbations', kind)
             check(ctx, src, pattern, kind, must_be_empty=must_be_empty)
     # expression-level patterns (the trimmed pattern root is an expression), verbatim and with one placeholder on two names
@@ -526,4 +538,5 @@ def replay(ctx, case):
     cc.present(ctx, case['src'], case.get('presented', 'plain'))
     kind = case.get('perturbation', 'derived')
     check(ctx, case['src'], case['pattern'], kind,
-          must_be_empty=kind in ('absent-identifier', 'absent-literal', 'literal-of-other-type', 'literal-look-alike-of-other-kind', 'foreign-pattern-with-absent-content'))
+          must_be_empty=kind in ('absent-identifier', 'absent-literal', 'literal-of-other-type', 'literal-look-alike-of-other-kind', 'foreign-pattern-with-absent-content',
+                                 'extra-absent-name-in-a-global-or-nonlocal-list'))
